@@ -154,7 +154,119 @@ def quantizeFlat (N : Nat) (shape : List Nat) (ed : Bool) (data : Array α) : Fl
     rq := toFlat rows cols w.q
     rbucket := (List.range cols).map w.bucket }
 
+/-! ### the same computation with a rounding function after every arithmetic operation
+
+`fl : α → α` is the rounding of the float format (a parameter: the theorems take its error bound as a
+hypothesis; the driver runs `fl32`, round-to-nearest-even to 24 bits, on exact rationals).  `max`, `abs`,
+`jnp.where`, the subtraction of the extracted diagonal (`x - 0`, `x - x`), `jnp.round` on the computed
+ratio, the int→float conversion of the payload and the re-addition of the diagonal (`v + 0`, `0 + d`) are
+exact in IEEE arithmetic and therefore carry no `fl`.
+
+A division `a / b` is computed in one of two ways by XLA-CPU (observed, jax 0.11): a correctly rounded
+division `fl (a / b)`, or — whenever the divisor is a constant or is broadcast against the dividend —
+`fl (a * fl (1 / b))` (two roundings).  `recip` selects the second. -/
+
+/-- `a / b` as computed: one rounded division, or a rounded product with the rounded reciprocal -/
+def divFl (fl : α → α) (recip : Bool) (a b : α) : α :=
+  if recip then fl (a * fl (1 / b)) else fl (a / b)
+
+/-- `bucket_size = max_abs / num_buckets` as computed -/
+def bucketSizeFl (fl : α → α) (rb : Bool) (N : Nat) (col : List α) : α :=
+  divFl fl rb (maxAbs col) (N : α)
+
+/-- `round(x / bs_nonzero)` as computed -/
+def quantEntryFl (fl : α → α) (rr : Bool) (b x : α) : Int :=
+  roundHalfEven (divFl fl rr x (bucketNZ b))
+
+/-- `quantized * bucket_size` as computed -/
+def dequantEntryFl (fl : α → α) (b : α) (q : Int) : α := fl ((q : α) * b)
+
+/-- `QuantizedValue.quantize` in rounded arithmetic (`rb`, `rr`: how the bucket / the ratio is divided) -/
+def quantizeFl (fl : α → α) (rb rr : Bool) (N rows cols : Nat) (ed : Bool) (x : Nat → Nat → α) : QV α :=
+  let y := pre ed x
+  let f := fun c => bucketSizeFl fl rb N (column rows y c)
+  let tab := table cols f
+  { q := fun i c => quantEntryFl fl rr (lookup tab f c) (y i c)
+    diag := fun i => if ed then x i i else 0
+    bucket := lookup tab f }
+
+/-- `QuantizedValue.to_float` in rounded arithmetic -/
+def dequantizeFl (fl : α → α) (ed : Bool) (v : QV α) : Nat → Nat → α :=
+  fun i c =>
+    let val := dequantEntryFl fl (v.bucket c) (v.q i c)
+    if ed then val + (if i = c then v.diag i else 0) else val
+
+/-- what the harness compares in rounded arithmetic, on flat data -/
+structure FlatResultFl (α : Type) where
+  q : List Int
+  bucket : List α
+  deq : List α
+
+def quantizeFlatFl (fl : α → α) (rb rr : Bool) (N : Nat) (shape : List Nat) (ed : Bool) (data : Array α) :
+    FlatResultFl α :=
+  let rows := rowsOf shape
+  let cols := colsOf shape
+  let v := quantizeFl fl rb rr N rows cols ed (fromFlat cols data)
+  { q := toFlat rows cols v.q
+    bucket := (List.range cols).map v.bucket
+    deq := toFlat rows cols (dequantizeFl fl ed v) }
+
 end generic
+
+/-! ### dtype dispatch of `QuantizedValue.quantize` / `to_float` and of its call sites -/
+
+/-- the four `quantized_dtype`s the code accepts -/
+inductive QDtype where
+  | int8 | int16 | bfloat16 | float32
+  deriving DecidableEq, Repr
+
+/-- `num_buckets` (only the integer dtypes are bucketed) -/
+def numBuckets : QDtype → Option Nat
+  | .int8 => some 127
+  | .int16 => some 32767
+  | _ => none
+
+/-- `quantized_dtype_for_momentum_buffers(var)` of `distributed_shampoo` -/
+def dsMomentumDtype (bestEffort : Bool) (rank : Nat) : QDtype :=
+  if bestEffort && decide (1 < rank) then .int8 else .float32
+
+/-- `quantize_second_moment` / `quantized_dtype_for_second_moment_*_buffers()` of `distributed_shampoo`:
+int16 only on the pmap path without low-rank compression -/
+def dsSecondMomentDtype (bestEffort lowRank fd pmapAxis sharded : Bool) : QDtype :=
+  if bestEffort && !lowRank && !fd && pmapAxis && !sharded then .int16 else .float32
+
+/-- `_quantize_diagonal_statistics`: always stored as float32 (a passthrough `QuantizedValue`) -/
+def dsDiagonalStatisticsDtype : QDtype := .float32
+
+/-- `sm3._quantize_momentum`: always int8 -/
+def sm3MomentumDtype : QDtype := .int8
+
+/-- payload of a `QuantizedValue` of any dtype: bucketed integers, or cast floats (`diagonal` and
+`bucket_size` are `[]` for the float dtypes, whatever `extract_diagonal` says) -/
+inductive Payload (α : Type) where
+  | ints (v : QV α)
+  | floats (f : Nat → Nat → α)
+
+section anydtype
+
+variable {α : Type} [OfNat α 0] [OfNat α 1] [Add α] [Sub α] [Neg α] [Mul α] [Div α]
+  [LT α] [DecidableLT α] [NatCast α] [IntCast α] [HasFloor α]
+
+/-- `QuantizedValue.quantize` for every dtype; `cast` is `astype(bfloat16)` seen in float32 -/
+def quantizeAny (cast : α → α) (dt : QDtype) (rows cols : Nat) (ed : Bool) (x : Nat → Nat → α) :
+    Payload α :=
+  match dt with
+  | .float32 => .floats x
+  | .bfloat16 => .floats fun i c => cast (x i c)
+  | .int8 => .ints (quantize 127 rows cols ed x)
+  | .int16 => .ints (quantize 32767 rows cols ed x)
+
+/-- `QuantizedValue.to_float` for every dtype (`astype(float32)` of a bfloat16 is exact) -/
+def toFloatAny (ed : Bool) : Payload α → Nat → Nat → α
+  | .floats f => f
+  | .ints v => dequantize ed v
+
+end anydtype
 
 /-! ### bfloat16 on exact rationals (dyadic inputs), float32 passthrough -/
 
@@ -177,6 +289,22 @@ def roundToFormat (p : Nat) (emin emax : Int) (x : Rat) : Option Rat :=
   let r : Rat := (roundHalfEven (x / ulp) : Rat) * ulp
   let big : Rat := (2 : Rat) ^ (emax + 1)
   if r ≥ big ∨ r ≤ -big then none else some r
+
+/-- the same rounding without the overflow test (unbounded exponents above): `p` significand bits, ties to
+even, gradual underflow below `2^emin`.  `roundToFormat p emin emax x = some r → roundNE p emin x = r`. -/
+def roundNE (p : Nat) (emin : Int) (x : Rat) : Rat :=
+  if x = 0 then 0 else
+  let a := if x < 0 then -x else x
+  let e := floorLog2 a
+  let e := if e < emin then emin else e
+  let ulp : Rat := (2 : Rat) ^ (e - (p : Int) + 1)
+  (roundHalfEven (x / ulp) : Rat) * ulp
+
+/-- float32 rounding of an exact value (the `fl` the driver runs `quantizeFl` with) -/
+def fl32 (x : Rat) : Rat := roundNE 24 (-126) x
+
+/-- `|x|` is at least `2^128`: a float32 result would have overflowed -/
+def f32Overflows (x : Rat) : Bool := decide ((2 : Rat) ^ (128 : Int) ≤ (if x < 0 then -x else x))
 
 /-- `astype(jnp.bfloat16)` of an exact float32 value, then back to float32 (exact) -/
 def bf16Round (x : Rat) : Option Rat := roundToFormat 8 (-126) 127 x
